@@ -4,6 +4,8 @@ Correspondence: LTL.modelcheck on live objects vs the extracted model; internal 
 closure and atoms; each exclusion additionally certified by a concrete lasso."""
 from common import *
 from mccheck import *
+import collections
+import props_c02_round2 as R2          # (registers the hash-equal state presentations in mccheck.RENAMES)
 LEVEL = 'proof'
 
 KF = {'id': 'KF-print-a', 'what': "LTL closure/atom membership by printed form: A(X(p) and not AtomicProposition('X(p)')) on the one-state p-loop"}
@@ -161,7 +163,17 @@ def run(R):
               'interleaved with edits of its owner through the public API (labels(s) add/discard, replace_labelling_function with set/frozenset/list/shared '
               'containers, add_edge, a new state with its edges and labels) - with a pool of formula OBJECTS reused across the calls (now and then also '
               'passed to CTLS/CTL.modelcheck); every answer must equal the proved model on the presentation read back at the time of the call, formula '
-              'objects must keep their trees, K must be left alone, returned sets are cleared / polluted by the caller after being recorded STACKED NEGATIONS: random formulas with 2-4 negations stacked on random subformulas (under quantifiers, between temporal operators, over derived operators and constants), object and text channel. JOINED ATOM NAMES: atom names of which one is the concatenation / blank- or comma-join / repetition / case variant of others ({p, q} and {pq} are different label sets), most structures with a state of each kind')
+              'objects must keep their trees, K must be left alone, returned sets are cleared / polluted by the caller after being recorded STACKED NEGATIONS: random formulas with 2-4 negations stacked on random subformulas (under quantifiers, between temporal operators, over derived operators and constants), object and text channel. JOINED ATOM NAMES: atom names of which one is the concatenation / blank- or comma-join / repetition / case variant of others ({p, q} and {pq} are different label sets), most structures with a state of each kind. '
+              'TIMING CHAINS (props_c02_round2): nested X chains of X-depth 3-5 (quick; closure with <= 5 X-formulas) / 3-6 (thorough) with connectives / negations interleaved and a small temporal or propositional core, on '
+              'structures with 2-3 states that wait in self-loops and then move on: the tableau has transient chains LONGER than K has states. '
+              'OPERATOR STACKS: every word of length 2-4 over {X, F, G} (117 words; F G F, G F G, F F, X G X ...; negations interleaved; alone or under U / R / or / and / -->) '
+              'applied to a small operand, each on structures chosen (by the reference semantics) so that the stack is told apart from its one-operator simplifications. '
+              'HASH-EQUAL STATES: a sample of all the above with states whose hashes collide (-1 / -2 / -(2**61+1), 0 / 2**61-1 / 2*(2**61-1), tuples of those, user objects '
+              'with a constant __hash__); these presentations also enter the live sessions. EDGE EDITS: sessions on one Kripke object whose owner removes / adds / retargets / '
+              'rewires transitions IN PLACE through the live successor set returned by K.next(s) (the library has no remove_edge) and through add_edge, every formula object '
+              'queried before and after every group of edits; each answer against the proved model on the structure read back at the time of the call. '
+              'OUTSIDE the property (recorded in cov only): instances of a Kripke SUBCLASS overriding labels() while the stored labelling differs - the two public accessors '
+              'labels(s) and labelling_function()[s] then disagree and the library itself reads the stored dict (clone, get_substructure, hence CTLS.modelcheck)')
     known_finding_probe(R)
     run_print_stream(R, 'C02', 'LTL', 800 if R.thorough else 100)
     cs = cases(R)
@@ -191,6 +203,24 @@ def run(R):
     run_text(R, 'LTL', [c for c in tx if all(len(g) > 2 or g[0] not in NARY for g in subformulas(c[1]))])
     # one structure queried, edited by its owner and queried again; formula objects reused
     run_live(R, 'LTL', 2500 if R.thorough else 220)
+    # ---- second audit round (props_c02_round2.py) ----
+    if True:
+        # nested X chains: tableau chains longer than the structure has states
+        tm = R2.timing_cases(R.rng, 2000 if R.thorough else 170, maxx=6 if R.thorough else 5)
+        R2.run_mc_items(R, 'LTL', [(kd, f, None, None) for kd, f in tm], '_timing_chains')
+        R.cov['timing_chains_by_X_depth'] = dict(collections.Counter(str(R2.xdepth(f)) for _, f in tm))
+        # every stack of 2-4 unary temporal operators (F G F, G F G, F F, X G X, ...)
+        stk = R2.stack_cases(R.rng, 12 if R.thorough else 3)
+        R2.run_mc_items(R, 'LTL', [(kd, f, None, None) for kd, f in stk], '_operator_stacks')
+        R.cov['operator_stacks'] = {'words_over_XFG_of_length_2_to_4': len(R2.stack_words()), 'cases': len(stk),
+                                    'cases_by_number_of_one_operator_simplifications_told_apart': R2.stack_cases.hist}
+        # states whose hashes collide
+        pool = [c for c in cs if len(c[0]['S']) >= 2 and has_temporal(c[1])]
+        hc = R.rng.sample(pool, 1500 if R.thorough else 110) + dense[1::16] + stk[::12]
+        R2.run_mc_items(R, 'LTL', [(kd, f, R2.CLASH[i % 3], None) for i, (kd, f) in enumerate(hc)], '_hash_equal_states')
+        # transitions removed / added / retargeted in place by the owner of K, queries before and after
+        R2.run_edge_sessions(R, 1500 if R.thorough else 110)
+        R2.derived_labels_probe(R)
     rng = R.rng
     internal_agreement(R, rng.sample(cs, 150 if not R.thorough else 1500))
     # lasso certificates for exclusions
@@ -218,4 +248,6 @@ def run(R):
 
 
 def replay(R, data):
+    if data['data'].get('stream') == 'edge edits':
+        return R2.replay_edge_session(R, data['data'])
     replay_mc(R, data)
